@@ -115,6 +115,9 @@ impl Writer<PW> for Leaf {
         if matches!(a, AEv::ParseErr(_)) {
             self.counts[4] += 1;
         }
+        if !self.cat.meta_ok(&ev, &a) {
+            self.log.borrow_mut().push(format!("!metadata-changed {} {}", self.id, show_aev(&a)));
+        }
         self.log.borrow_mut().push(format!("e {} {}", self.id, show_aev(&a)));
     }
 }
